@@ -39,6 +39,10 @@ def states(tier, seed):
     # (a2) struct alone
     for model, pf, ny, relief, pm in itertools.product(["tube", "wingbox"], ["swept", "twdi"], nys, [False, True], ["none", "left_inboard", "right_outboard", "both"]):
         st.append(dict(part="struct", model=model, pf=pf, ny=ny, relief=relief, pm=pm, fam=fam))
+        if pm in ("none", "both"):
+            st.append(dict(part="struct", model=model, pf=pf, ny=ny, relief=relief, pm=pm, uneq=True, fam=fam))
+    for model, ny, relief, pm in itertools.product(["tube", "wingbox"], [2, 3, 4], [False, True], [False, True]):
+        st.append(dict(part="structlr", model=model, ny=ny, relief=relief, pm=pm, fam=fam))
     # (a3) aerostruct, asymmetric
     for model, pf, ny, be, pmass in itertools.product(["tube", "wingbox"], ["swept", "twdi"], [5] if tier == "quick" else [5, 7], [0.0, 4.0], [False, True]):
         st.append(dict(part="as", model=model, pf=pf, ny=ny, beta=be, pmass=pmass, fam=fam))
@@ -143,10 +147,50 @@ def flipD(d):
     return out
 
 
+def part_structlr(s):
+    """a left-half and a right-half symmetric STRUCTURAL model of the same wing (mirrored loads, reversed control points) agree.
+    Planform without z-slope of the reference axis (the Geometry group's Rotate moves right-half meshes otherwise: known F7r)."""
+    fam, ny = s["fam"], s["ny"]
+    mL = gen.make_mesh("swept", 2, ny, "left", fam, span=10.0, chord=1.6)
+    mR = gen.mirror_mesh(mL)
+    loads = np.zeros((ny, 6))
+    loads[:, :3] = gen.gen((ny, 3), 3, -2e3, 4e3, fam)
+    loads[:, 3:] = gen.gen((ny, 3), 4, -5e2, 5e2, fam)
+
+    def run(mesh, L, mirror):
+        o = -1 if mirror else 1
+        kw = dict(struct_weight_relief=s["relief"], exact_failure_constraint=True, t_over_c_cp=np.array([0.1, 0.14, 0.12])[::o])
+        if s["model"] == "tube":
+            kw["thickness_cp"] = np.array([0.012, 0.02, 0.03])[::o]
+        else:
+            kw.update(spar_thickness_cp=np.array([0.004, 0.006, 0.008])[::o], skin_thickness_cp=np.array([0.008, 0.012, 0.016])[::o])
+        pm = None
+        if s["pm"]:
+            kw["n_point_masses"] = 1
+            pm = dict(point_masses=[600.0], engine_thrusts=[5.0e3], point_mass_locations=[[1.1, 2.3 if mirror else -2.3, -0.35]])
+        p = builders.build_struct(builders.struct_surface("wing", mesh, True, s["model"], **kw), L, load_factor=1.5, pm=pm)
+        p.run_model()
+        return p
+
+    p1, p2 = run(mL, loads, False), run(mR, flipD(loads), True)
+    viol, val = [], 5
+    wh = dict(part="structlr", model=s["model"])
+    d1 = p1["disp"]
+    _viol(viol, "left_vs_right_half_structure", "disp", p2["disp"], flipD(d1), np.abs(d1).max(), TOL, wh)
+    _viol(viol, "left_vs_right_half_structure", "vonmises", p2["vonmises"], p1["vonmises"][::-1], np.abs(p1["vonmises"]).max(), TOL, wh)
+    _viol(viol, "left_vs_right_half_structure", "failure", p2["failure"], p1["failure"][::-1] if np.ndim(p1["failure"]) > 1 else p1["failure"], max(np.abs(p1["failure"]).max(), 1e-3), TOL, wh)
+    _viol(viol, "left_vs_right_half_structure", "structural_mass", p2["structural_mass"], p1["structural_mass"], abs(p1["structural_mass"][0]), TOL, wh)
+    _viol(viol, "left_vs_right_half_structure", "cg_location", p2["cg_location"], p1["cg_location"] * POLAR, np.abs(p1["cg_location"]).max(), TOL, wh)
+    return dict(viol=viol, nontrivial=bool(np.abs(d1).max() > 1e-12), digest=digest_arrays(d1, p1["vonmises"]), transitions=2, validated=val)
+
+
 def part_struct(s):
     fam = s["fam"]
     ny = s["ny"]
     m = gen.make_mesh(s["pf"], 2, ny, "full", fam, asym=True, span=10.0, chord=1.6)
+    if s.get("uneq"):
+        # unequal semi-spans (the right one 30 % longer) and control points that vary along the span (reversed for the mirror image)
+        m[:, :, 1] = np.where(m[:, :, 1] > 0, 1.3 * m[:, :, 1], m[:, :, 1])
     loads = np.zeros((ny, 6))
     loads[:, :3] = gen.gen((ny, 3), 3, -2e3, 4e3, fam)
     loads[:, 3:] = gen.gen((ny, 3), 4, -5e2, 5e2, fam)
@@ -157,6 +201,13 @@ def part_struct(s):
 
     def run(mesh, L, mirror):
         kw = dict(struct_weight_relief=s["relief"], exact_failure_constraint=True)
+        if s.get("uneq"):
+            o = -1 if mirror else 1
+            kw.update(twist_cp=np.array([1.0, 3.0, -2.0])[::o], t_over_c_cp=np.array([0.1, 0.14, 0.12])[::o])
+            if s["model"] == "tube":
+                kw["thickness_cp"] = np.array([0.012, 0.02, 0.03, 0.016])[::o]
+            else:
+                kw.update(spar_thickness_cp=np.array([0.004, 0.006, 0.008, 0.005])[::o], skin_thickness_cp=np.array([0.008, 0.012, 0.016, 0.01])[::o])
         pm = None
         if locs:
             kw["n_point_masses"] = len(locs)
